@@ -1216,3 +1216,157 @@ class WOFF2GlyfContainerRoundTrip(Contract):
         return And(*cs)
 
     ensures = [prop("header-streams-bitmaps-and-read-back", lambda a, old, r: WOFF2GlyfContainerRoundTrip._post(a, r))]
+
+
+@contract
+class WOFF2LocaCompile(Contract):
+    """WOFF2LocaTable.compile for three symbolic uint32 offsets: with the WOFF2 glyf table's
+    indexFormat 0 it writes offset / 2 as big-endian uint16 each - and refuses (TTLibError) exactly
+    when some offset is odd or reaches 0x20000, never truncating; with indexFormat 1 it writes
+    big-endian uint32; when the glyf table carries no indexFormat (or is absent) it defers to
+    the ordinary loca compiler."""
+    module = "fontTools.ttLib.woff2"
+    qualname = "WOFF2LocaTable.compile"
+    props = ("C04",)
+    variants = (0, 1, "no-glyf", "glyf-without-format")
+    level = "PF"
+    only_raises = (TTLibError,)
+    assumptions = ("table__l_o_c_a.compile is a recorder in the two deferring variants (own contract: LocaCompile)",)
+
+    def rebind(self):
+        return std("struct", "len", "bytes", "bytearray", "array", "int", "byteord", "bytechr")
+
+    def args(self, S, variant):
+        locs = [S.int("loc%d" % i, 0, 0xFFFFFFFF) for i in range(3)]
+        cls = self.mod.WOFF2LocaTable
+        t = cls.__new__(cls)
+        t.locations = list(locs)
+
+        class _Glyf:
+            pass
+        g = _Glyf()
+        if variant in (0, 1):
+            g.indexFormat = variant
+        font = {} if variant == "no-glyf" else {"glyf": g}
+        return dict(self=t, ttFont=font, _locs=locs, _v=variant)
+
+    raises = {TTLibError: lambda a: And(a._v == 0, Or(*[Or(l >= 0x20000, Not(eq(l % 2, 0))) for l in a._locs]))}
+
+    def call(self, f, a):
+        base = type(a.self).__mro__[1]
+        real = base.compile
+        seen = []
+
+        def compile_(self, ttFont):
+            seen.append((self, ttFont))
+            return b"PARENT"
+        base.compile = compile_
+        try:
+            return f(a.self, a.ttFont), seen
+        finally:
+            base.compile = real
+
+    @staticmethod
+    def _post(a, r):
+        data, seen = r
+        if a._v not in (0, 1):
+            return data == b"PARENT" and len(seen) == 1 and seen[0][0] is a.self and seen[0][1] is a.ttFont
+        its = _items(data)
+        w = 2 if a._v == 0 else 4
+        if seen or len(its) != 3 * w:
+            return False
+        cs = []
+        for i, l in enumerate(a._locs):
+            v = 0
+            for b in its[w * i:w * i + w]:
+                v = v * 256 + b
+            cs.append(eq(v * 2, l) if a._v == 0 else eq(v, l))
+        return And(*cs)
+
+    ensures = [prop("offsets-in-the-glyf-tables-format-or-refused", lambda a, old, r: WOFF2LocaCompile._post(a, r))]
+
+
+@contract
+class WOFF2FlavorDataOffsets(Contract):
+    """WOFF2Writer._calcFlavorDataOffsetsAndSize for EVERY start offset and every metadata /
+    private-data length: metadata (when present) starts at the given offset, metaLength is the
+    compressed length and metaOrigLength the uncompressed one; private data (when present) starts
+    at the next multiple of four at or after the end of the metadata - never more than three
+    bytes later - and has its own length; an absent block has offset and lengths 0; the result is
+    the end of the last block."""
+    module = "fontTools.ttLib.woff2"
+    qualname = "WOFF2Writer._calcFlavorDataOffsetsAndSize"
+    props = ("C04",)
+    level = "P"
+    assumptions = ("brotli.compress is a stub returning bytes of an arbitrary (symbolic) length",)
+
+    def rebind(self):
+        outer = self
+
+        class _brotli:
+            MODE_TEXT = "text"
+
+            @staticmethod
+            def compress(data, mode=None):
+                outer._compressed_from = (data, mode)
+                return outer._comp
+        self._brotli = _brotli
+        return std("struct", "len", "bytes", "int")
+
+    def args(self, S, variant):
+        def blob(name):
+            t = Tail(name)
+            S.ctx.symbols[name + ".len"] = t.n.t
+            S.ctx.assume_term(t.n.t >= 0)
+            return SymBytes([], t), t.n
+        if S.concrete:
+            meta = bytes(min(S.int("meta.len", 0), 1 << 20))
+            priv = bytes(min(S.int("priv.len", 0), 1 << 20))
+            self._comp = bytes(min(S.int("comp.len", 0), 1 << 20))
+            ml, pl, cl = len(meta), len(priv), len(self._comp)
+        else:
+            (meta, ml), (priv, pl), (self._comp, cl) = blob("meta"), blob("priv"), blob("comp")
+
+        class _FD:
+            pass
+        fd = _FD()
+        fd.metaData, fd.privData = meta, priv
+        cls = self.mod.WOFF2Writer
+        w = cls.__new__(cls)
+        w.flavorData = fd
+        return dict(self=w, start=S.int("start", 0, 0xFFFFFFFF), _ml=ml, _pl=pl, _cl=cl, _meta=meta, _comp=self._comp)
+
+    @staticmethod
+    def _post(a, r):
+        w = a.self
+        has_meta, has_priv = a._ml > 0, a._pl > 0
+        end_meta = Ite(has_meta, a.start + a._cl, a.start)
+        cs = [eq(w.metaOffset, Ite(has_meta, a.start, 0)), eq(w.metaLength, Ite(has_meta, a._cl, 0)),
+              eq(w.metaOrigLength, Ite(has_meta, a._ml, 0)),
+              eq(w.privLength, Ite(has_priv, a._pl, 0)),
+              Implies(has_priv, And(eq(w.privOffset % 4, 0), w.privOffset >= end_meta, w.privOffset - end_meta <= 3)),
+              Implies(Not(has_priv), eq(w.privOffset, 0)),
+              eq(r, Ite(has_priv, w.privOffset + a._pl, end_meta))]
+        return And(*cs)
+
+    ensures = [prop("blocks-placed-aligned-and-sized", lambda a, old, r: WOFF2FlavorDataOffsets._post(a, r)),
+               internal("compressed-data-is-kept-for-writing", lambda a, old, r: WOFF2FlavorDataOffsets._kept(a))]
+
+    @staticmethod
+    def _kept(a):
+        c = a.self.compressedMetaData
+        if c is a._comp:
+            return a._ml > 0
+        return And(Not(a._ml > 0), isinstance(c, bytes) and c == b"")
+
+    def call(self, f, a):
+        missing = object()
+        real = getattr(self.mod, "brotli", missing)          # patched here (not in rebind) so that a native replay sees the stub too
+        self.mod.brotli = self._brotli
+        try:
+            return f(a.self, a.start)
+        finally:
+            if real is missing:
+                del self.mod.brotli
+            else:
+                self.mod.brotli = real
